@@ -135,6 +135,15 @@ static void expand_desc(const char* s, vec_t* v) {
         } else if (kind == 'C') {
             v_need(v, 8 * a);
             for (unsigned long i = 0; i < a; i++) { uint64_t val = b ? i % b : i; memcpy(v->p + v->n, &val, 8); v->n += 8; }
+        } else if (kind == 'V') {
+            /* a int32 values drawn (xorshift, seed b) from the b%29+2 values {0, 1000, 2000, ..}: a low-cardinality
+             * column in random order */
+            uint32_t st = (uint32_t)b * 2654435761u + 0x9E3779B9u, card = (uint32_t)(b % 29) + 2; if (!st) st = 1;
+            v_need(v, 4 * a);
+            for (unsigned long i = 0; i < a; i++) {
+                st ^= st << 13; st ^= st >> 17; st ^= st << 5;
+                uint32_t val = ((st >> 7) % card) * 1000u; memcpy(v->p + v->n, &val, 4); v->n += 4;
+            }
         } else if (kind == 'R') {
             if (a == 0 || a > v->n) { fprintf(stderr, "bad repeat offset %lu at %zu\n", a, v->n); exit(3); }
             v_need(v, b);
